@@ -286,6 +286,55 @@ def run(chk, tier):
     chk.extra["c14"] = stats
 
 
+def selftest():
+    """Show that the binding rejects a corrupted record: (i) one extra blank in the lead of one line of a piled
+    rendering (a different program by the pile rules) must give a VIOLATION; (ii) one altered token of a recorded
+    stage stream must show up as drift; (iii) every action of the model must have been taken."""
+    build = vlib.vbuild()
+    chk = vlib.Check("C14", "selftest")
+    chk.findings = []
+    d = spec_dir(0)
+    cfg = open(os.path.join(d, "LayoutQuick.cfg")).read().replace("MaxN = 3", "MaxN = 2").replace('"enum+extra"', '"enum"').replace(', "L7"}', '}')
+    open(os.path.join(d, "LayoutQuick.cfg"), "w").write(cfg)
+    r = vlib.tlc("Layout", "LayoutQuick", workers=8, timeout=600, cwd=d, coverage=True)
+    if r.error:
+        raise vlib.MachineryError(r.error)
+    untaken = [a for a, (t, g) in r.coverage.items() if a.startswith("Do") and t == 0]
+    renders = layout.parse_renders(r.printed)
+    for x in renders:
+        x["key"] = layout.tree_key(x["tree"])
+        x["name"] = layout.tree_text(x["tree"])
+    stats = {}
+    replay(chk, build, renders, "selftest-clean", stats)
+    clean = len(chk.violations)
+    clean_drift = dict(stats["drift"]["stage_mismatch"])
+    # (i) corrupt the lead of the last code line of a piled two-statement block
+    victim = next(x for x in renders if x["sty"]["mode"] == "piled" and x["sty"]["cont"] == "none" and x["holds"]
+                  and x["name"] == "D1[L2 L3]")
+    code = [i for i, ln in enumerate(victim["text"]) if ln["toks"] and not ln["toks"][0].startswith("--") and ln["lead"]]
+    victim["text"][code[-1]]["lead"] = victim["text"][code[-1]]["lead"] + ["s"]
+    # (ii) corrupt one token of a recorded stream of another rendering
+    other = next(x for x in renders if x is not victim and x["holds"] and len(x["streams"]["leaving"]) > 3)
+    other["streams"]["leaving"][2] = "CORRUPT"
+    stats2 = {}
+    replay(chk, build, renders, "selftest-corrupt", stats2)
+    for w, p in chk.violations:
+        os.remove(p)
+    print("selftest: actions never taken: %s" % (untaken or "none"))
+    print("selftest: clean replay: %d violations, drift %s" % (clean, clean_drift))
+    print("selftest: corrupted lead -> %d violation(s); corrupted stream -> drift %s"
+          % (len(chk.violations) - clean, stats2["drift"]["stage_mismatch"]))
+    ok = not untaken and len(chk.violations) - clean >= 1 and stats2["drift"]["stage_mismatch"].get("leaving", 0) >= 1
+    print("selftest: %s" % ("ok" if ok else "FAILED"))
+    vlib.cleanup_scratch()
+    return 0 if ok else 2
+
+
 SELFTEST_NOTES = """
 (to be filled)
 """
+
+
+if __name__ == "__main__":
+    if "--selftest" in sys.argv:
+        sys.exit(selftest())
